@@ -47,10 +47,11 @@ def step_cases(fams, rand_kw=None, nq=250, nt=2500, rq=200, rt=3000, full=True):
 
 
 def unit2_cases(nq=120, nt=1200):
-    """simulate(unit_time=2) on absence-free models (time advances by 2 per step)."""
+    """simulate(unit_time=2): time advances by 2 per step, so row k of the logs belongs to time
+    2(k-1); absence lists (of the project and of resources) hold times - odd ones are never met."""
     def cases(tier, seed):
         out = []
-        for c in _rand(tier, seed + 2, nq, nt, "U", absences=False):
+        for c in _rand(tier, seed + 2, nq, nt, "U", absences=False) + _rand(tier, seed + 3, nq, nt, "V", absences=True):
             c["opts"]["unit"] = 2
             c["opts"]["maxTime"] = 40
             out.append(c)
@@ -711,7 +712,7 @@ PLANS["C01"]["cases"] = both(PLANS["C01"]["cases"], c01_edit_cases)
 # edits of the model between two runs: no run may depend on what an earlier run derived
 PLANS["C09"]["cases"] = both(PLANS["C09"]["cases"], c01_edit_cases, c05_edit_cases, c09_retarget_cases)
 # an edited absence calendar is the calendar of the next run
-PLANS["C10"]["cases"] = both(PLANS["C10"]["cases"], c09_retarget_cases, c10_resume_cases)
+PLANS["C10"]["cases"] = both(PLANS["C10"]["cases"], c09_retarget_cases, c10_resume_cases, unit2_cases())
 PLANS["C08"]["cases"] = both(PLANS["C08"]["cases"], c08_hist_cases, unit2_cases(),
                                tlc_hist_cases("histC08", ["deps", "placeflat"], 1, 6))
 PLANS["C18"]["cases"] = both(PLANS["C18"]["cases"], tlc_hist_cases("histC18", ["abs", "placeflat"], 1, 6))
